@@ -179,6 +179,18 @@ Theorem limit_in_force : forall (tls13 client : bool) (ext : Z),
   (ext <= (if tls13 then 16385 else 16384) -> sl <= recv_limit_after tls13 ext).
 Proof. exact limit_in_force_l. Qed.
 
+(* TLS <= 1.2 (RFC 8449 section 4): the negotiated limit covers protected records only -- the sender starts
+   to honour it with its WRITE state switch, the receiver to enforce it with its READ state switch, so at
+   every position of the stream both ends apply the same limit; unprotected handshake records (e.g. a
+   NewSessionTicket before ChangeCipherSpec) are bounded by the protocol maximum only.  `own` is the
+   receiver's setting, ext_sent what its extension carries to the sender. *)
+Theorem limits_agree_at_every_position : forall (protected negotiated sender_is_client : bool) (own : Z),
+  64 <= own <= 16385 ->
+  send_limit_at protected negotiated sender_is_client (ext_sent sender_is_client own) =
+  recv_limit_at protected negotiated own /\
+  (protected = false -> send_limit_at protected negotiated sender_is_client (ext_sent sender_is_client own) = 16384).
+Proof. exact limits_agree_at_every_position_l. Qed.
+
 (* a freshly keyed direction (nothing written, in flight, buffered or read) meets the invariant *)
 Theorem fresh_direction_ok : forall (CS : Type) (R : CS -> CS -> Prop) (d : @Dir CS),
   sync R (d_snd d) (d_rcv d) -> d_flight d = [] -> d_rbuf d = [] -> d_written d = [] -> d_read d = [] ->
